@@ -256,6 +256,18 @@ func (env *SEnv) call(e *SExpr) *SVal {
 		// the []byte view of an interface value whose dynamic type is a byte slice (reflect.Value.Bytes)
 		x := env.coerce(env.eval(e.Args[0]), SAny)
 		return &SVal{T: App(SSlice, "any_bytesval", x.T), Go: types.NewSlice(types.Typ[types.Uint8])}
+	case "anyelems":
+		// the element store of all []any slices in the current state (to be passed to state-independent spec functions)
+		return &SVal{T: u.comp(env.cur, ecomp(SAny))}
+	case "elemat":
+		// elemat(EA, s, i): element i of the []any slice s in element store EA
+		ea := env.eval(e.Args[0])
+		sl := env.eval(e.Args[1])
+		i := env.evalI(e.Args[2])
+		if sl.T.Sort != SSlice {
+			env.fail("elemat: second argument must be a slice")
+		}
+		return &SVal{T: Select(Select(ea.T, SArr(sl.T)), ElemIdx(SOff(sl.T), i)), Go: types.Universe.Lookup("any").Type()}
 	case "asmap":
 		// conversion of a named map type (ProtectedHeader, UnprotectedHeader, CWTClaims) to map[any]any
 		x := env.eval(e.Args[0])
@@ -320,7 +332,7 @@ func (env *SEnv) tryType(name string) (rt RType, ok bool) {
 		}
 	}()
 	switch name {
-	case "Int", "Bool", "Bytes", "CV", "CVList":
+	case "Int", "Bool", "Bytes", "CV", "CVList", "AnySet", "AnyMap", "AnyElems", "Data":
 		return RType{}, false
 	}
 	rt = env.u.eng.resolveType(&STypeExpr{Kind: "name", Name: name})
